@@ -4,8 +4,45 @@ package main
 // sharded over the worker pool.
 
 import (
+	"fmt"
 	"sync"
 )
+
+// Worker functions run under recover: a panic inside the library on some case must become a (replayable)
+// violation of the running property instead of killing the checker. The registered closures let finish()
+// re-execute exactly that case sequentially (5x) before it is reported.
+var (
+	workerFnsMu sync.Mutex
+	workerFns   []func(arg any)
+)
+
+func regWorkerFn(f func(arg any)) int {
+	workerFnsMu.Lock()
+	defer workerFnsMu.Unlock()
+	workerFns = append(workerFns, f)
+	return len(workerFns) - 1
+}
+
+func workerPanic(r *Run, id int, arg any, text string, pm any) {
+	cs := &Case{Kind: "worker-panic", Driver: "worker", Text: text, Extra: map[string]any{"fn": id, "arg": arg}}
+	r.Col.add(&Violation{Property: r.Prop, Site: "library-call", Rule: "no-panic-while-checking", Class: "panic:" + panicClass(fmt.Sprint(pm)), Detail: fmt.Sprintf("panic: %v on %s", pm, text), Case: cs})
+}
+
+func init() {
+	replayers["worker-panic"] = func(prop string, c *Case) (out []*Violation) {
+		id, ok := c.Extra["fn"].(int)
+		if !ok || id >= len(workerFns) {
+			return nil // only replayable inside the run that found it
+		}
+		defer func() {
+			if p := recover(); p != nil {
+				out = []*Violation{{Property: prop, Site: "library-call", Rule: "no-panic-while-checking", Class: "panic:" + panicClass(fmt.Sprint(p)), Case: c}}
+			}
+		}()
+		workerFns[id](c.Extra["arg"])
+		return nil
+	}
+}
 
 type enumCtx struct {
 	r   *Run
@@ -17,7 +54,16 @@ type enumCtx struct {
 
 // enumStrings calls fn for every string over sigma of length minLen..maxLen (each exactly once).
 // The string passed is prefix+s and must not be retained.
-func enumStrings(r *Run, sigma []byte, minLen, maxLen int, prefix []byte, fn func(c *enumCtx, s []byte)) {
+func enumStrings(r *Run, sigma []byte, minLen, maxLen int, prefix []byte, fn0 func(c *enumCtx, s []byte)) {
+	fid := regWorkerFn(func(arg any) { fn0(&enumCtx{r: r, st: newStats(), id: -2}, []byte(arg.(string))) })
+	fn := func(c *enumCtx, s []byte) {
+		defer func() {
+			if p := recover(); p != nil {
+				workerPanic(r, fid, string(s), fmt.Sprintf("%q", s), p)
+			}
+		}()
+		fn0(c, s)
+	}
 	type job struct{ head []byte }
 	var jobs []job
 	// shard on the first two symbols
@@ -99,7 +145,16 @@ func enumStrings(r *Run, sigma []byte, minLen, maxLen int, prefix []byte, fn fun
 }
 
 // parallelFor runs fn(i) for i in [0,n) on the worker pool with per-worker contexts.
-func parallelFor(r *Run, n int, fn func(c *enumCtx, i int)) {
+func parallelFor(r *Run, n int, fn0 func(c *enumCtx, i int)) {
+	fid := regWorkerFn(func(arg any) { fn0(&enumCtx{r: r, st: newStats(), id: -2}, arg.(int)) })
+	fn := func(c *enumCtx, i int) {
+		defer func() {
+			if p := recover(); p != nil {
+				workerPanic(r, fid, i, fmt.Sprintf("case #%d", i), p)
+			}
+		}()
+		fn0(c, i)
+	}
 	ch := make(chan int, 256)
 	var wg sync.WaitGroup
 	for w := 0; w < r.Workers; w++ {
